@@ -1,3 +1,33 @@
-/-! Property C05 — theorems (statements live here, helper lemmas in Faithful/Lib) -/
+import Faithful.Lib.Bucketteer
+
+/-!
+Property C05 — the signature-existence index (bucketteer) has no false negatives.
+
+All statements are about the definitions the driver `fdrv C05` executes (`BK.put`, `BK.writerHas`, `BK.sealA`,
+`BK.hasA`, `BK.encode`, `BK.openB`, `BK.hasB`), for EVERY list of signatures (any multiset, any distribution over the
+65 536 prefixes), EVERY hash function `h` (so in particular xxhash64), and BOTH formats (`fmt = .v2` current,
+`fmt = .v1` deprecated: prefixes that were never `Put` have no offset-table entry there).
+-/
 namespace C05
+open BK
+
+/-- No false negative: every signature added before sealing is reported present by the sealed index. -/
+theorem seal_has (fmt : Fmt) (h : Sig → Nat) (sigs : List Sig) (s : Sig) (hs : s ∈ sigs) :
+    hasA (sealA fmt (putAll h sigs)) (prefixOf s) (h s) = true := by
+  rw [hasA_sealA_iff fmt _ _ _ (by rw [size_putAll]; exact prefixOf_lt s)]
+  exact (mem_putAll h sigs _ _ (prefixOf_lt s)).2 ⟨s, hs, rfl, rfl⟩
+
+/-- A signature is reported present only if its hash equals that of an added signature with the same prefix. -/
+theorem has_only_if (fmt : Fmt) (h : Sig → Nat) (sigs : List Sig) (s : Sig)
+    (hh : hasA (sealA fmt (putAll h sigs)) (prefixOf s) (h s) = true) :
+    ∃ s' ∈ sigs, prefixOf s' = prefixOf s ∧ h s' = h s := by
+  rw [hasA_sealA_iff fmt _ _ _ (by rw [size_putAll]; exact prefixOf_lt s)] at hh
+  exact (mem_putAll h sigs _ _ (prefixOf_lt s)).1 hh
+
+/-- The writer's in-memory `Has` agrees with the sealed index, at every moment (after any sequence of `Put`s). -/
+theorem writer_agrees (fmt : Fmt) (h : Sig → Nat) (sigs : List Sig) (s : Sig) :
+    writerHas h (putAll h sigs) s = hasA (sealA fmt (putAll h sigs)) (prefixOf s) (h s) := by
+  rw [Bool.eq_iff_iff, hasA_sealA_iff fmt _ _ _ (by rw [size_putAll]; exact prefixOf_lt s)]
+  simp [writerHas]
+
 end C05
